@@ -185,12 +185,19 @@ def parsePages (H : Hash) (pe : Bytes → Except Err Nat) (ps : Nat) :
         | .error e => .error e
         | .ok (m, r) => .ok (n + m, r)
 
+/-- `EncodingHeader::data_size`: header, both index + page tables, ESpec block (`usize`; the
+operands are `u32`/`u16·1024`, far below 2^64). -/
+def dataSize (h : Header) : Nat :=
+  22 + h.ckCount * (32 + h.ckKb * 1024) + h.ekCount * (32 + h.ekKb * 1024) + h.especSize
+
 /-- `EncodingFile::parse`: (CKey entries, EKey entries) or the error class. -/
 def parse (H : Hash) (d : Bytes) : Except Err (Nat × Nat) :=
   match readHeader d with
   | .error e => .error e
   | .ok h =>
     if !headerOk h then .error .header
+    -- fix a1e7c2a: `header.data_size() > data.len()` → UnexpectedEof before anything is read or allocated
+    else if d.length < dataSize h then .error .io
     else if d.length < 22 + h.especSize then .error .io
     else if !especOk (slice d 22 h.especSize) true then .error .espec
     else
